@@ -337,7 +337,7 @@ class CopyEscape(CopySuite):
     """C14"""
     name = "copyescape"
     rule = ("(source tree, destination tree, src path, dst path) with symlinks to sentinel directories/files outside both roots planted at every component "
-            "position (absolute, '..'-laden, dangling, looping), follow-links on/off, always-replace on/off; oracle: full snapshot (inode, mode, owner, "
+            "position (absolute, '..'-laden, dangling, looping), source arguments ending in '..', follow-links on/off, always-replace on/off, chown/mode/times options; oracle: full snapshot (inode, mode, owner, "
             "times, bytes, xattrs) of everything outside the destination root unchanged, no sentinel bytes copied; non-trivial = >= 1 planted link, distinct")
 
     def gen(self, rng, tier):
@@ -378,6 +378,10 @@ class CopyEscape(CopySuite):
             for e in tree:
                 if e["t"] == "symlink":
                     spaths += [b"/" + bytes.fromhex(e["p"]) + suf for suf in (b"/f", b"/d/g", b"/secret", b"/d", b"/outside/f", b"/srcout/secret")]
+            # source arguments that step back with '..' (they denote entries inside the source root, the root at most)
+            for e in rng.sample(tree, min(2, len(tree))):
+                spaths += [b"/" + bytes.fromhex(e["p"]) + b"/..", bytes.fromhex(e["p"]) + b"/..", b"/" + bytes.fromhex(e["p"]) + b"/../.."]
+            spaths += [b"..", b"/..", b"../.."]
             dpaths = [b"/", b"/out", b"/lnk/x", b"/lnk", b"/a/x", b"/x/../../outside/z"] + [b"/" + bytes.fromhex(e["p"]) for e in dst] + \
                      [b"/" + bytes.fromhex(e["p"]) + b"/sub" for e in dst if e["t"] == "symlink"]
             a = {"src": hx(rng.choice(spaths)), "dst": hx(rng.choice(dpaths))}
@@ -387,6 +391,15 @@ class CopyEscape(CopySuite):
                 a["follow"] = True
             if rng.random() < 0.3:
                 a["replace"] = True
+            if rng.random() < 0.5:
+                # chown / mode / times must not be applied through a copied or pre-existing symlink either
+                for k in rng.sample(["chown", "mode", "utime"], rng.randint(1, 2)):
+                    if k == "chown":
+                        a["chown"] = [rng.choice([1000, 4242]), rng.choice([1000, 4242])]
+                    elif k == "mode":
+                        a["mode"] = rng.choice([0o755, 0o600, 0o4755, 0o1777, 0o700])
+                    else:
+                        a["utime"] = rng.choice([1111111111_000000000, 1500000000_123456789])
             if rng.random() < 0.35:
                 a["wild"] = True
                 if rng.random() < 0.4:
